@@ -73,6 +73,13 @@ SHAPES = [
         {"mov": ["value", "reg"]}, {"add": ["tag", "reg"]}]}]}],
      [{"@ld": {"value": 0, "reg": S("R1"), "tag": ""}}, {"@ld": {"value": "0x0", "reg": S("R2"), "tag": False}}],
      [{"$and": [{"mov": [0, S("R1")]}, {"add": ["", S("R1")]}]}, {"$and": [{"mov": ["0x0", S("R2")]}, {"add": [False, S("R2")]}]}]),
+    ("block macro used twice, only one use with times", [SHIFT], [{"@shift": {"times": 2}}, S("X"), "@shift", {"@shift": {"times": 3}}],
+     [{"$or": [S("SHL"), S("SHR")], "times": 2}, S("X"), {"$or": [S("SHL"), S("SHR")]}, {"$or": [S("SHL"), S("SHR")], "times": 3}]),
+    ("block macro used plainly first, then with times", [SHIFT], ["@shift", {"@shift": None, "times": 2}, "@shift"],
+     [{"$or": [S("SHL"), S("SHR")]}, {"$or": [S("SHL"), S("SHR")], "times": 2}, {"$or": [S("SHL"), S("SHR")]}]),
+    ("string macro referred to twice inside one name", [{"name": "@h", "pattern": "[0-9a-f]"}, {"name": "@l", "pattern": "l"}],
+     [{S("M"): ["0x@h@h", "@h@h"]}, {"cmov@l@l": [S("O")]}, "j@l@l"],
+     [{S("M"): ["0x[0-9a-f][0-9a-f]", "[0-9a-f][0-9a-f]"]}, {"cmovll": [S("O")]}, "jll"]),
     ("block macro used with a times body", [SHIFT], [{"@shift": {"times": 2}}, S("X")],
      [{"$or": [S("SHL"), S("SHR")], "times": 2}, S("X")]),
     ("block macro used with a sibling times", [SHIFT], [{"@shift": None, "times": {"min": 0, "max": 3}}, S("X")],
